@@ -28,16 +28,20 @@ import (
 
 // Case selects one traffic scenario and its parameters.
 type Case struct {
-	Kind   string `json:"kind"` // tcp-pair | tcp-raw | udp | echo | stray | fd | routes
-	V6     bool   `json:"v6"`
-	MTU    int    `json:"mtu"`
-	SACK   bool   `json:"sack"`
-	Sizes  []int  `json:"sizes"`  // payload sizes (tcp writes / udp datagrams / echo payloads)
-	Opts   []byte `json:"opts"`   // SYN options of the scripted peer (tcp-raw)
-	Zero   bool   `json:"zero"`   // udp: construct the payload so that the checksum computes to zero
-	Loss   int    `json:"loss"`   // tcp-pair: background loss per mille (elicits SACK blocks, retransmissions)
-	Seed   uint64 `json:"seed"`
-	NIC    int    `json:"nic"`    // routes: which destination class
+	Kind  string `json:"kind"` // tcp-pair | tcp-raw | udp | echo | stray | fd | routes
+	V6    bool   `json:"v6"`
+	MTU   int    `json:"mtu"`
+	SACK  bool   `json:"sack"`
+	Sizes []int  `json:"sizes"` // payload sizes (tcp writes / udp datagrams / echo payloads)
+	Opts  []byte `json:"opts"`  // SYN options of the scripted peer (tcp-raw)
+	Zero  bool   `json:"zero"`  // udp: construct the payload so that the checksum computes to zero
+	Loss  int    `json:"loss"`  // tcp-pair: background loss per mille (elicits SACK blocks, retransmissions)
+	Seed  uint64 `json:"seed"`
+	NIC   int    `json:"nic"` // routes: which destination class
+	// udp: per datagram, destination and how it is given: v%3 peer, (v/3)%3 port,
+	// (v/9)%3 mode (0 sendto with an explicit address, 1 Connect to it and Write
+	// without address, 2 Write without address on the connection as it is)
+	UDPDst []int `json:"udp_dst,omitempty"`
 }
 
 type frameCtx struct {
@@ -303,13 +307,60 @@ func scUDP(c Case, fc *frameCtx) *evid.Failure {
 		return nil
 	}
 	sent := 0
+	peers := []tcpip.Address{peer, tcpip.Address([]byte{10, 0, 0, 3}), tcpip.Address([]byte{10, 0, 0, 200})}
+	if c.V6 {
+		peers = []tcpip.Address{peer, tcpip.Address(append(append([]byte(nil), []byte(netsim.B6)[:15]...), 3)), tcpip.Address(append(append([]byte(nil), []byte(netsim.B6)[:15]...), 200))}
+	}
+	ports := []uint16{5000, 5001, 7}
+	var conn *tcpip.FullAddress // the socket's current remote address
 	for i, n := range c.Sizes {
+		d := 0
+		if i < len(c.UDPDst) {
+			d = c.UDPDst[i]
+			if d < 0 {
+				d = -d
+			}
+		}
+		dst := tcpip.FullAddress{Addr: peers[d%3], Port: ports[(d/3)%3]}
+		mode := (d / 9) % 3
+		if mode == 2 && conn == nil {
+			mode = 0
+		}
+		peer, dport := dst.Addr, dst.Port
+		wopts := tcpip.WriteOptions{To: &dst}
+		switch mode {
+		case 1:
+			if conn != nil && conn.Addr == dst.Addr && conn.Port == dst.Port {
+				// connecting again to the very same address is refused by the stack
+				// (duplicate registration); not this property's business
+				mode = 2
+				wopts = tcpip.WriteOptions{}
+				evid.Label("udp:write-on-connection")
+				break
+			}
+			if e := s.EP.Connect(dst); e != nil {
+				evid.Label("udp:connect-failed")
+				evid.Note("udp Connect(%v:%d) failed: %v", []byte(dst.Addr), dst.Port, e)
+				return judgeFrames(fc, "tap", tap.Trace(), [][]byte{[]byte(me)})
+			}
+			conn = &tcpip.FullAddress{Addr: dst.Addr, Port: dst.Port}
+			wopts = tcpip.WriteOptions{}
+			evid.Label("udp:write-after-connect")
+		case 2:
+			peer, dport = conn.Addr, conn.Port
+			wopts = tcpip.WriteOptions{}
+			evid.Label("udp:write-on-connection")
+		default:
+			if conn != nil {
+				evid.Label("udp:sendto-on-connected-socket")
+			}
+		}
 		pl := pattern(c.Seed+uint64(i), n)
 		if c.Zero && n >= 2 {
-			pl = zeroSumPayload([]byte(me), []byte(peer), 4000, 5000, n, c.Seed+uint64(i))
+			pl = zeroSumPayload([]byte(me), []byte(peer), 4000, dport, n, c.Seed+uint64(i))
 		}
 		before := tap.Len()
-		_, _, werr := s.EP.Write(tcpip.SlicePayload(pl), tcpip.WriteOptions{To: &tcpip.FullAddress{Addr: peer, Port: 5000}})
+		_, _, werr := s.EP.Write(tcpip.SlicePayload(pl), wopts)
 		if werr != nil {
 			if tap.Len() != before {
 				return evid.Failf("udp-failed-write-emitted", "Write of %d bytes failed with %v but a frame was emitted", n, werr)
@@ -322,9 +373,10 @@ func scUDP(c Case, fc *frameCtx) *evid.Failure {
 			return evid.Failf("udp-one-packet", "Write of %d bytes emitted %d frames", n, len(fr))
 		}
 		k := fr[0].Pkt
-		if k.L4Kind != "udp" || k.SrcPort != 4000 || k.DstPort != 5000 || !bytes.Equal(k.Dst, []byte(peer)) || !bytes.Equal(k.Payload, pl) {
+		if k.L4Kind != "udp" || k.SrcPort != 4000 || k.DstPort != dport || !bytes.Equal(k.Dst, []byte(peer)) || !bytes.Equal(k.Payload, pl) {
 			if k.OK() {
-				return evid.Failf("udp-addressing", "datagram of %d bytes to %v:5000 from port 4000 was emitted as %s", n, []byte(peer), k)
+				return evid.Failf("udp-addressing", "datagram of %d bytes to %v:%d (%s) from port 4000 was emitted as %s", n, []byte(peer), dport,
+					[]string{"explicit address", "address of the Connect just made", "address the socket is connected to"}[mode], k)
 			}
 		}
 		if c.Zero && n >= 2 && k.OK() {
@@ -556,6 +608,9 @@ func genCase(rt *rapid.T) Case {
 	case "udp":
 		max = 65507
 		c.Zero = rapid.Bool().Draw(rt, "zero")
+		for i := 0; i < n; i++ {
+			c.UDPDst = append(c.UDPDst, rapid.OneOf(rapid.Just(0), rapid.IntRange(0, 26)).Draw(rt, "udp-dst"))
+		}
 	case "echo":
 		max = c.MTU - 48
 		if max > 8000 {
